@@ -79,7 +79,11 @@ package modhash
 //@   ensures [C13] (old(mhSet(m)) && result == nil) ==> (forall i {m.endpoints[i].Host} :: (0 <= i && i < len(m.endpoints)) ==> m.endpoints[i].Host != ep.Host)
 //@   ensures [C13] (old(mhSet(m)) && result == nil) ==> mhKeys(m)
 //@   ensures [C13] (old(mhSet(m)) && result == nil) ==> mhDistinct(m)
+// C14 (a removal re-routes only what it must): the list closes the gap and keeps its order - every remaining slot
+// holds what it held before or what its right neighbour held
+//@   ensures [C14] forall j {m.endpoints[j].Host} :: (0 <= j && j < len(m.endpoints)) ==> (m.endpoints[j].Host == old(m.endpoints[j].Host) || m.endpoints[j].Host == old(m.endpoints[j + 1].Host))
 //@   perreturn
 //@   loop 0 invariant m != nil && m.mapValues != nil && hdr(m.endpoints) == old(hdr(m.endpoints))
+//@   loop 0 invariant [C14] forall j {m.endpoints[j].Host} :: (0 <= j && j < len(m.endpoints)) ==> m.endpoints[j].Host == old(m.endpoints[j].Host)
 //@   loop 0 invariant [C13] forall i {m.endpoints[i].Host} :: (0 <= i && i <= rangeindex) ==> m.endpoints[i].Host != ep.Host
 //@   safety [C13]
